@@ -466,7 +466,7 @@ fn record(tier: &str, out: &str) {
     }
 
     // ---- batched openings -------------------------------------------------------
-    let sizes: Vec<usize> = if thorough { vec![1, 2, 3, 4, 6] } else { vec![1, 2, 3] };
+    let sizes: Vec<usize> = if thorough { vec![1, 2, 3, 4, 6] } else { vec![1, 2, 3, 4] };
     for &size in &sizes {
         let rounds = if thorough { 3 } else { 1 };
         for _ in 0..rounds {
@@ -492,6 +492,24 @@ fn record(tier: &str, out: &str) {
                 let mut es = base.clone();
                 es[j].z += BlsScalar::one();
                 run_batch(&mut r, k, &format!("size {size}: point {j} moved"), &es, &pts(&es), None);
+            }
+            // two false evaluations whose differences cancel, and every pair of evaluations
+            // exchanged: rejected only if every item has its own power of the challenge
+            for i in 0..size {
+                for j in (i + 1)..size {
+                    let d = s.fe();
+                    let mut es = base.clone();
+                    es[i].e += d;
+                    es[j].e -= d;
+                    run_batch(&mut r, k, &format!("size {size}: evaluations {i} and {j} off by +d / -d"), &es, &pts(&es), None);
+                    if i > 0 || j < size - 1 {
+                        let mut es = base.clone();
+                        let t = es[i].e;
+                        es[i].e = es[j].e;
+                        es[j].e = t;
+                        run_batch(&mut r, k, &format!("size {size}: evaluations {i} and {j} swapped"), &es, &pts(&es), None);
+                    }
+                }
             }
             if size >= 2 {
                 let last = size - 1;
